@@ -26,6 +26,16 @@ Definition ae_from (t m : N) (lg : list entry) (r : rpc) : Prop :=
   no_ae r \/ exists pli plt lc, r = AE t m pli plt (skipn (N.to_nat pli) lg) lc /\
                               slice lg pli plt (skipn (N.to_nat pli) lg).
 
+(* messages a log-quiet step may add: failed replies, or the RequestVote of a fresh candidate *)
+Definition lmsg (s' : rstate) (r : rpc) : Prop :=
+  (exists t mi, r = AER t false mi) \/
+  (exists l lt, r = RV (term s') l lt /\ rrole s' = Candidate /\ last_log_position s' = (lt, l)).
+
+(* match_index entries of a leader are justified by successful replies of its term *)
+Definition mi_ok (x : xstate) (m : N) (s s' : rstate) : Prop :=
+  rrole s' = Leader -> forall f v, mget f (match_index s') = Some v -> 0 < v ->
+  mget f (match_index s) = Some v \/ In (f, m, AER (term s) true v) (x_sent x).
+
 Inductive leff (n : N) (y : ystate) : ystate -> Prop :=
 | LSame : forall m s' sent' cast' el',
     let x := y_x y in let s := x_st x m in
@@ -35,11 +45,17 @@ Inductive leff (n : N) (y : ystate) : ystate -> Prop :=
     (rrole s = Leader -> term s' = term s -> rrole s' = Leader) ->
     (forall f to r, In (f, to, r) sent' -> In (f, to, r) (x_sent x) \/ no_ae r) ->
     el' = x_elected x ->
+    commit s' = commit s ->
+    (forall f to r, In (f, to, r) sent' -> In (f, to, r) (x_sent x) \/ (f = m /\ lmsg s' r)) ->
+    (rrole s' = Candidate -> rrole s = Candidate /\ term s' = term s /\ votes s' = votes s) ->
+    mi_ok x m s s' ->
     leff n y (mkY (mkX (updf (x_st x) m s') sent' cast' el') (y_gl y))
 | LWin : forall m s',
     let x := y_x y in let s := x_st x m in
     eff n x (mkX (updf (x_st x) m s') (x_sent x) (x_cast x) (x_elected x ++ [(term s, m)])) ->
     rrole s = Candidate -> rrole s' = Leader -> term s' = term s -> log s' = log s ->
+    commit s' = commit s -> votes s' = votes s ->
+    (forall f v, mget f (match_index s') = Some v -> v = 0) ->
     leff n y (mkY (mkX (updf (x_st x) m s') (x_sent x) (x_cast x) (x_elected x ++ [(term s, m)]))
                   (updf (y_gl y) (term s) (log s)))
 | LAppend : forall m s' sent' ext,
@@ -48,6 +64,7 @@ Inductive leff (n : N) (y : ystate) : ystate -> Prop :=
     rrole s = Leader -> rrole s' = Leader -> term s' = term s -> log s' = log s ++ ext ->
     (forall e, In e ext -> e_term e = term s) -> (log_wf (log s) = true -> log_wf (log s') = true) ->
     (forall f to r, In (f, to, r) sent' -> In (f, to, r) (x_sent x) \/ no_ae r) ->
+    commit s' = commit s -> match_index s' = match_index s -> sent' = x_sent x ++ tag_out m [] ->
     leff n y (mkY (mkX (updf (x_st x) m s') sent' (x_cast x) (x_elected x))
                   (updf (y_gl y) (term s) (log s')))
 | LSend : forall m s' o,
@@ -55,6 +72,11 @@ Inductive leff (n : N) (y : ystate) : ystate -> Prop :=
     eff n x (mkX (updf (x_st x) m s') (x_sent x ++ tag_out m o) (x_cast x) (x_elected x)) ->
     rrole s = Leader -> rrole s' = Leader -> term s' = term s -> log s' = log s ->
     (forall to r, In (to, r) o -> ae_from (term s) m (log s) r) ->
+    commit s <= commit s' -> match_index s' = match_index s ->
+    (commit s' <> commit s ->
+       exists e, nth_error (log s) (N.to_nat (commit s') - 1) = Some e /\ e_term e = term s /\
+                 majority_of n <= acks (others_of n m) (match_index s) (commit s')) ->
+    (forall to t ldr pli plt es lc, In (to, AE t ldr pli plt es lc) o -> lc = commit s') ->
     leff n y (mkY (mkX (updf (x_st x) m s') (x_sent x ++ tag_out m o) (x_cast x) (x_elected x)) (y_gl y))
 | LRecv : forall m s' o f ldr pli plt es lc cmt,
     let x := y_x y in let s := x_st x m in
@@ -65,7 +87,33 @@ Inductive leff (n : N) (y : ystate) : ystate -> Prop :=
                  exists e, nth_error (log s) (N.to_nat pli - 1) = Some e /\ e_term e = plt)) ->
     append_entries (log s) cmt es = Some (log s') ->
     (forall to r, In (to, r) o -> no_ae r) ->
-    leff n y (mkY (mkX (updf (x_st x) m s') (x_sent x ++ tag_out m o) (x_cast x) (x_elected x)) (y_gl y)).
+    cmt = commit s ->
+    commit s' = (if commit s <? N.min lc (pli + len es) then N.min lc (pli + len es) else commit s) ->
+    o = [(f, AER (term s) true (pli + len es))] ->
+    leff n y (mkY (mkX (updf (x_st x) m s') (x_sent x ++ tag_out m o) (x_cast x) (x_elected x)) (y_gl y))
+| LGrant : forall m s' from lli llt,
+    let x := y_x y in let s := x_st x m in
+    eff n x (mkX (updf (x_st x) m s') (x_sent x ++ tag_out m [(from, RVR (term s))])
+                 (x_cast x ++ [(term s, m, from)]) (x_elected x)) ->
+    log s' = log s -> term s' = term s -> rrole s' = rrole s -> votes s' = votes s ->
+    commit s' = commit s -> match_index s' = match_index s ->
+    In (from, m, RV (term s) lli llt) (x_sent x) ->
+    pair_ge (llt, lli) (last_log_position s) = true ->
+    leff n y (mkY (mkX (updf (x_st x) m s') (x_sent x ++ tag_out m [(from, RVR (term s))])
+                       (x_cast x ++ [(term s, m, from)]) (x_elected x)) (y_gl y))
+| LVote : forall m s' u,
+    let x := y_x y in let s := x_st x m in
+    eff n x (mkX (updf (x_st x) m s') (x_sent x) (x_cast x) (x_elected x)) ->
+    log s' = log s -> term s' = term s -> rrole s = Candidate -> rrole s' = Candidate ->
+    commit s' = commit s -> votes s' = sins u (votes s) ->
+    In (u, m, RVR (term s)) (x_sent x) ->
+    leff n y (mkY (mkX (updf (x_st x) m s') (x_sent x) (x_cast x) (x_elected x)) (y_gl y))
+| LCand : forall m s',
+    let x := y_x y in let s := x_st x m in
+    eff n x (mkX (updf (x_st x) m s') (x_sent x) (x_cast x ++ [(term s', m, m)]) (x_elected x)) ->
+    log s' = log s -> term s' = term s + 1 -> rrole s <> Leader -> rrole s' = Candidate ->
+    commit s' = commit s -> votes s' = [m] ->
+    leff n y (mkY (mkX (updf (x_st x) m s') (x_sent x) (x_cast x ++ [(term s', m, m)]) (x_elected x)) (y_gl y)).
 
 Inductive leffs (n : N) : ystate -> ystate -> Prop :=
 | leffs_refl : forall y, leffs n y y
@@ -340,7 +388,17 @@ Proof.
   - eapply win_inv; eauto.
   - eapply append_inv; eauto.
   - eapply send_inv; eauto.
-  - eapply recv_inv; eauto.
+  - subst cmt. eapply recv_inv; eauto.
+  - (* LGrant *)
+    eapply same_inv; eauto; fold x; fold s; try lia.
+    + intros R. split; congruence.
+    + intros R _. congruence.
+    + intros f to r Hin. apply in_app_or in Hin. destruct Hin as [Hin|Hin]; auto. right.
+      unfold tag_out in Hin. cbn in Hin. destruct Hin as [E|[]]. inversion E; subst. cbn. exact Logic.I.
+  - (* LVote *)
+    eapply same_inv; eauto; fold x; fold s; try lia; try (intros; congruence); try (intros R; split; congruence).
+  - (* LCand *)
+    eapply same_inv; eauto; fold x; fold s; try lia; try (intros; congruence); try (intros R; contradiction).
 Qed.
 
 Lemma leffs_LInv : forall n y y', leffs n y y' -> LInv n y -> LInv n y'.
